@@ -162,11 +162,15 @@ theorem prevSibs_sub_children (n : Node) (f : Frame) (fs : List Frame) (s : Loc)
   simp only [Loc.children, Loc.plug, Node.kind, Node.data, Node.attrs, Node.children, h1]
   simpa using this
 
-/-- the `other` clause of `LocalOk` holds when no previous sibling is a Doctype-like node -/
-theorem other_ok_of_none {l : Loc} (h : ∀ s ∈ l.prevSibs, s.kind ≠ .other) :
-    ∀ pre s post, l.prevSibs = pre ++ s :: post → s.kind = .other → ∀ e ∈ post, e.kind ≠ .elem := by
+/-- the `other` clause of `LocalOk` holds when no previous sibling is a Doctype / Document node -/
+theorem other_ok_of_none {l : Loc} (h : ∀ s ∈ l.prevSibs, s.kind ≠ .other ∧ s.kind ≠ .doc) :
+    ∀ pre s post, l.prevSibs = pre ++ s :: post → (s.kind = .other ∨ s.kind = .doc) →
+      ∀ e ∈ post, e.kind ≠ .elem := by
   intro pre s post hp hs
-  exact absurd hs (h s (by rw [hp]; simp))
+  have := h s (by rw [hp]; simp)
+  rcases hs with hs | hs
+  · exact absurd hs this.1
+  · exact absurd hs this.2
 
 /-- all nodes of one tree, each `LocalOk`, form a `DomOk` set -/
 theorem domOk_allLocs (root : Node) (h : ∀ l ∈ allLocs root, LocalOk l) :
